@@ -1,6 +1,7 @@
 package props
 
 import (
+	"bytes"
 	"encoding/binary"
 	"encoding/json"
 	"fmt"
@@ -44,6 +45,12 @@ type c34Scenario struct {
 	ReadBuf  int       `json:"read_buf"`
 	CancelMs int       `json:"cancel_ms,omitempty"` // engine B: HandshakeContext cancelled after this many ms (0 = background context)
 	Renego   int       `json:"renegotiation,omitempty"` // client Config.Renegotiation (0 never, 1 once, 2 freely)
+	// Reframe (engine A, TLS 1.3): bit d set = a peer-side re-framer sits on direction d (0 = client→server): it
+	// re-emits the sender's application-epoch records under the same keys in another legal framing and injects up to
+	// KeyUpdates KeyUpdate messages (update_requested or not), which the receiving endpoint has to process in Read while
+	// its other goroutines are writing.
+	Reframe    int `json:"reframe,omitempty"`
+	KeyUpdates int `json:"key_updates,omitempty"`
 	Tape     []int     `json:"tape,omitempty"`
 }
 
@@ -71,6 +78,10 @@ func genC34(seed uint64, tier string) any {
 	sc.Renego = r.Pick([]int{2, 1, 1})
 	if sc.Engine == "B" && r.Chance(1, 4) {
 		sc.CancelMs = []int{1, 5, 50, 500}[r.Intn(4)]
+	}
+	if sc.Engine == "A" && sc.Version == vTLS13 && r.Chance(1, 2) {
+		sc.Reframe = 1 + r.Intn(3)
+		sc.KeyUpdates = r.Range(1, 3)
 	}
 	for side := 0; side < 2; side++ {
 		nw := r.Range(1, 3)
@@ -235,6 +246,11 @@ type c34Side struct {
 	inFlight  int  // Write calls currently executing on this side
 	timedOut  string // error text of the first Write that timed out on this side
 	abrupt    bool // a Close was issued while a Write was executing, or a Write failed: the stream may legitimately end mid-payload
+	abruptAt  int  // scheduler step at which abrupt was first set (0 = never)
+	localClose bool // a task of this side called Close
+	readErrAt int  // scheduler step at which the reader stopped
+	idleEnd   bool // the reader stopped because nothing arrived for the whole patience interval
+	sticky    bool // Read kept returning a timeout although its deadline had been moved into the future
 	hsErr     error
 	nextSeq   map[int]int
 }
@@ -261,6 +277,23 @@ func execC34(t *testing.T, scAny any, keepLog bool) *Outcome {
 		cn, sn := s.Pipe("c", "s", sc.Net.params(), sc.Net.params())
 		sides := [2]*c34Side{{conn: tls.Client(cn, ccfg), closedAt: -1, nextSeq: map[int]int{}}, {conn: tls.Server(sn, scfg), closedAt: -1, nextSeq: map[int]int{}}}
 		nets[0], nets[1] = cn, sn
+		var keylog bytes.Buffer
+		var reframes [2]*reframe13
+		if sc.Reframe != 0 {
+			ccfg.KeyLogWriter, scfg.KeyLogWriter = &keylog, &keylog
+			for d := 0; d < 2; d++ {
+				if sc.Reframe&(1<<uint(d)) != 0 {
+					reframes[d] = &reframe13{Suite: sc.Suite, Label: []string{"CLIENT_TRAFFIC_SECRET_0", "SERVER_TRAFFIC_SECRET_0"}[d], KeyLog: &keylog,
+						Rng: kit.NewRng(sc.Seed ^ uint64(0x34f0+d)), Rate: 2, KeyUpdates: sc.KeyUpdates}
+					nets[d].SetFilter(reframes[d])
+				}
+			}
+		}
+		markAbrupt := func(sd *c34Side) {
+			if !sd.abrupt {
+				sd.abrupt, sd.abruptAt = true, s.Steps+1
+			}
+		}
 		// every blocking call has a deadline: the property's precondition
 		base := 20 * time.Second
 		for side := 0; side < 2; side++ {
@@ -270,12 +303,40 @@ func execC34(t *testing.T, scAny any, keepLog bool) *Outcome {
 			s.Go(fmt.Sprintf("reader%d", side), func() {
 				sd.conn.SetDeadline(s.Now().Add(base))
 				buf := make([]byte, sc.ReadBuf)
+				lastProgress := s.Now()
+				spins := 0
 				for {
+					t0 := s.Now()
 					n, err := sd.conn.Read(buf)
 					sd.recv = append(sd.recv, buf[:n]...)
+					if n > 0 {
+						lastProgress, spins = s.Now(), 0
+					}
 					if err != nil {
-						sd.readErr = err
+						// A read deadline moved by another goroutine (SetDeadline / SetReadDeadline) interrupts a blocked Read
+						// with a timeout; the application moves the deadline and reads on. Only 'base' without any
+						// byte ends the reader.
+						if ne, ok := err.(interface{ Timeout() bool }); ok && ne.Timeout() && !sd.localClose && s.Now().Sub(lastProgress) < base &&
+							sd.conn.ConnectionState().HandshakeComplete {
+							if s.Now().Equal(t0) {
+								spins++
+							} else {
+								spins = 0
+							}
+							if spins >= 4 {
+								sd.sticky = true
+								sd.readErr, sd.readErrAt = err, s.Steps
+								break
+							}
+							o.count("probe.read_resumed_after_timeout", 1)
+							sd.conn.SetReadDeadline(lastProgress.Add(base))
+							continue
+						}
+						sd.readErr, sd.readErrAt = err, s.Steps
 						sd.cleanEOF = err.Error() == "EOF"
+						if ne, ok := err.(interface{ Timeout() bool }); ok && ne.Timeout() && s.Now().Sub(lastProgress) >= base {
+							sd.idleEnd = true
+						}
 						break
 					}
 				}
@@ -283,7 +344,7 @@ func execC34(t *testing.T, scAny any, keepLog bool) *Outcome {
 					sd.closedAt = len(sd.writes)
 				}
 				if sd.inFlight > 0 {
-					sd.abrupt = true
+					markAbrupt(sd)
 				}
 				sd.conn.Close()
 			})
@@ -318,8 +379,10 @@ func execC34(t *testing.T, scAny any, keepLog bool) *Outcome {
 							ackAfterTimeout = fmt.Sprintf("side %d: Write of %d bytes returned success after an earlier Write had timed out (%s)", tk.Side, len(p), sd.timedOut)
 						}
 						if err != nil {
-							if n > 0 || sd.closedAt < 0 {
-								sd.abrupt = true // e.g. a write deadline expired in the middle of a payload
+							if n > 0 || sd.closedAt < 0 || err.Error() != "tls: protocol is shutdown" {
+								// e.g. a write deadline expired in the middle of a payload; only the refusal to write after
+								// the local close_notify leaves the connection state untouched
+								markAbrupt(sd)
 							}
 							if ne, ok := err.(interface{ Timeout() bool }); ok && ne.Timeout() && sd.closedAt < 0 {
 								// an application that retries after a timeout: move the deadline and go on writing
@@ -352,14 +415,16 @@ func execC34(t *testing.T, scAny any, keepLog bool) *Outcome {
 					case "hello_request":
 						// the server asks for a renegotiation: an (encrypted) HelloRequest handshake message
 						if sd.conn.ConnectionState().HandshakeComplete {
-							sides[0].abrupt, sides[1].abrupt = true, true // the connection will not end with an orderly close
+							markAbrupt(sides[0]) // the connection will not end with an orderly close
+							markAbrupt(sides[1])
 							sd.conn.WriteRecord(22, []byte{0, 0, 0, 0})
 							o.count("fault.hello_request_sent", 1)
 						}
 					case "key_update_kill":
 						// TLS 1.3: ask the peer to update its keys, then drop the transport so that its reply cannot be written
 						if sd.conn.ConnectionState().HandshakeComplete {
-							sides[0].abrupt, sides[1].abrupt = true, true
+							markAbrupt(sides[0])
+							markAbrupt(sides[1])
 							sd.conn.WriteRecord(22, []byte{24, 0, 0, 1, 1})
 							nets[tk.Side].Kill(false)
 							o.count("fault.key_update_then_transport_closed", 1)
@@ -374,8 +439,9 @@ func execC34(t *testing.T, scAny any, keepLog bool) *Outcome {
 							sd.closedAt = len(sd.writes)
 						}
 						if sd.inFlight > 0 {
-							sd.abrupt = true
+							markAbrupt(sd)
 						}
+						sd.localClose = true
 						sd.conn.Close()
 						return
 					}
@@ -405,11 +471,42 @@ func execC34(t *testing.T, scAny any, keepLog bool) *Outcome {
 		if o.Fail == nil && (s.StepCapHit || s.TimeCapHit) {
 			o.Fail = Failf("c34.noreturn", "calls did not return within the step/time budget", "stepcap=%v timecap=%v", s.StepCapHit, s.TimeCapHit)
 		}
+		for d := 0; d < 2; d++ {
+			if rf := reframes[d]; rf != nil {
+				for k, n := range rf.Fired {
+					o.count(k, n)
+				}
+				if rf.Lost && o.Fail == nil && !sides[0].abrupt && !sides[1].abrupt {
+					o.Fail = Failf("c34.reframe.sync", "a record of the application epoch does not open under the RFC 8446 key schedule", "direction %d", d)
+				}
+			}
+		}
+		bothDone := sides[0].conn.ConnectionState().HandshakeComplete && sides[1].conn.ConnectionState().HandshakeComplete
+		if o.Fail == nil && bothDone {
+			for side := 0; side < 2; side++ {
+				rcv, snd := sides[side], sides[1-side]
+				// Was the reader's failure the first thing that went wrong on this connection? (A failed Write, a Close
+				// racing with a Write, a HelloRequest or a killed transport all come with their own, legitimate, errors.)
+				first := func(sd *c34Side) bool { return !sd.abrupt || sd.abruptAt > rcv.readErrAt }
+				if rcv.readErr == nil || rcv.localClose || !first(rcv) || !first(snd) {
+					continue
+				}
+				if rcv.sticky {
+					o.Fail = Failf("c34.sticky_read_timeout", "Read keeps returning a timeout although the read deadline was moved into the future (inbound stream cut off)", "side %d: %v after %d bytes", side, rcv.readErr, len(rcv.recv))
+					break
+				}
+				if !rcv.cleanEOF && !rcv.idleEnd {
+					o.Fail = Failf("c34.stream_error", "the reader of an undisturbed direction failed (byte stream not preserved)", "side %d (version %04x suite %04x): Read returned %v after %d bytes", side, sc.Version, sc.Suite, rcv.readErr, len(rcv.recv))
+					break
+				}
+			}
+		}
 		if o.Fail == nil {
 			for side := 0; side < 2; side++ {
 				rcv, snd := sides[side], sides[1-side]
-				// "complete": the reader saw a clean EOF (close_notify) and the sender was not cut short by a deadline or local Close race
-				complete := rcv.cleanEOF && !snd.abrupt
+				// "complete": the reader saw a clean EOF (close_notify), or nothing arrived any more for the whole patience
+				// interval, and the sender was not cut short by a deadline or local Close race
+				complete := (rcv.cleanEOF || rcv.idleEnd && bothDone && !rcv.localClose && !rcv.abrupt) && !snd.abrupt
 				if f := checkTaggedStream(rcv.recv, snd.writes, complete); f != nil {
 					f.Msg = fmt.Sprintf("direction %d→%d (version %04x suite %04x): %s", 1-side, side, sc.Version, sc.Suite, f.Msg)
 					o.Fail = f
